@@ -26,6 +26,7 @@ func runC20(c *Ctx) {
 	parsesLikeTheBrowser(c, "C20.R7")
 	memoDependsOnAllInputs(c, "C20.R8")
 	documentParsedAsReceived(c, "C20.R9")
+	sharedSlicesNotAppendedInPlace(c, "C20.R11", "cmd/templ/generatecmd/proxy")
 	p := c.pkg("cmd/templ/generatecmd/proxy")
 	info := p.TypesInfo
 
@@ -940,6 +941,50 @@ func runC20(c *Ctx) {
 			sYes, tYes := count("true")
 			c.check(len(hxTexts) > 0 && sNo == 0 && sFalse == 0 && sYes == tYes && tYes > 0, "C20.R3", fkey, c.pos(f.Pos()), "the skip marker is set exactly when HX-Request is \"true\"",
 				fmt.Sprintf("%s sets the skip marker on %d path(s) without HX-Request, %d with HX-Request: false, and %d of %d with HX-Request: true: ordinary page loads would lose the reload script (or HTMX responses would get it)", f.Name.Name, sNo, sFalse, sYes, tYes))
+			// … and every response its caller hands back went through it: the round tripper that calls the marker setter
+			// returns a response only on paths that called it (the first attempt and every retry alike)
+			fobj := info.Defs[f.Name]
+			for _, caller := range allFuncDecls(p) {
+				if caller == f || caller.Body == nil || !containsCallToObj(info, caller.Body, fobj) {
+					continue
+				}
+				res := caller.Type.Results
+				if res == nil || res.NumFields() != 2 || !strings.HasSuffix(info.TypeOf(res.List[0].Type).String(), "net/http.Response") {
+					continue
+				}
+				cden := &denum{info: info, pkg: p.Types, inits: map[types.Object]ast.Expr{}, limit: 20000, loopsOnce: true}
+				cden.finish(cden.run(caller.Body.List, []dstate{{env: map[types.Object]ast.Expr{}}}))
+				ckey := funcKey(p, caller) + "|every-returned-response-marked"
+				if cden.undecided != "" {
+					c.undec("C20.R3", ckey, c.pos(caller.Pos()), caller.Name.Name+" contains "+cden.undecided)
+					continue
+				}
+				nresp, unmarked := 0, ""
+				for _, pth := range cden.paths {
+					if pth.Ret == nil {
+						continue
+					}
+					ret := explicitReturn(info, pth.Ret)
+					if len(ret.Results) != 2 {
+						continue
+					}
+					if id, ok := ast.Unparen(cden.deref(ret.Results[0], pth.Env)).(*ast.Ident); ok && id.Name == "nil" {
+						continue
+					}
+					nresp++
+					marked := false
+					for _, st := range pth.Trace {
+						if containsCallToObj(info, st, fobj) {
+							marked = true
+						}
+					}
+					if !marked && unmarked == "" {
+						unmarked = c.pos(pth.Ret.Pos())
+					}
+				}
+				c.check(unmarked == "" && nresp > 0, "C20.R3", ckey, c.pos(caller.Pos()), fmt.Sprintf("%d path(s) return a response, each after %s", nresp, f.Name.Name),
+					fmt.Sprintf("%s returns a response at %s on a path that did not call %s: an HTMX request answered on that path (a retry after the application restarted) is not marked, so its fragment is wrapped in a document and gets the reload script", caller.Name.Name, unmarked, f.Name.Name))
+			}
 		}
 	}
 
